@@ -170,7 +170,7 @@ func exec(h *rt.H, s *state, op string) string {
 		// identities: (prefix, max) is the namespace, the suffix the identity; the empty suffix is the excluded point.
 		// Hashed names are only claimed distinct under the cryptographic hypothesis on the TRUNCATED hash: with
 		// fewer than 16 hash characters left (< 96 bits) a collision is expected, not a defect.
-		needsHash := len(p)+len(suf) > m || (len(p)+len(suf) == m && strings.HasPrefix(suf, "_"))
+		needsHash := len(p)+len(suf) > m || (len(p)+len(suf) == min(m, len(p)+44) && strings.HasPrefix(suf, "_"))
 		if needsHash && m-1-len(p) < 16 {
 			return s.check(h, op, fmt.Sprintf("gll/%s/%d", w[1], m), w[2], m, func() string { return calihash.GetLengthLimitedID(p, suf, m) }, true)
 		}
